@@ -121,6 +121,7 @@ func runC15(c *Ctx) {
 	ruleSecretTypesAtSinks(c, "R15.2")
 	ruleSecretTaint(c, "R15.1")
 	ruleSecretFiles(c, "R15.3")
+	ruleNoFileQuotingErrors(c, "R15.4")
 }
 
 func ruleSecretTypesAtSinks(c *Ctx, rule string) {
@@ -429,4 +430,32 @@ func ruleSecretFiles(c *Ctx, rule string) {
 		}
 	}
 	c.Floor(rule, "bolt.Open calls in the DKG package", n, 1)
+}
+
+// R15.4: an error about a file that may hold a secret never quotes the file. The TOML library offers error renderings that
+// include the offending lines of the input (ParseError.ErrorWithPosition / ErrorWithUsage); the private key and the share
+// files are two to four lines long with the secret scalar on the first lines, and load errors travel to the control client
+// and the log.
+func ruleNoFileQuotingErrors(c *Ctx, rule string) {
+	c.ranRules[rule] = true
+	n, bad := 0, 0
+	for _, fn := range c.P.SubjectFns() {
+		if isControlFn(fn) {
+			continue
+		}
+		pk := fnPkgPath(fn)
+		if !(strings.HasPrefix(pk, modPath+"/common/key") || strings.HasPrefix(pk, modPath+"/internal/fs") || strings.HasPrefix(pk, pkCore) || strings.HasPrefix(pk, modPath+"/internal/dkg")) {
+			continue
+		}
+		n++
+		for _, ci := range callsIn(fn, func(ci ssa.CallInstruction) bool {
+			nm := calleeName(ci)
+			return strings.Contains(nm, "toml.ParseError).ErrorWithPosition") || strings.Contains(nm, "toml.ParseError).ErrorWithUsage")
+		}) {
+			bad++
+			c.Ok(rule, fnShort(fn)+" renders a TOML parse error together with the lines of the file", shortPos(c.P, ci), false,
+				"the files decoded here include the private key and the share: their content must not reach an error string")
+		}
+	}
+	c.Ok(rule, "no decoding error of the key material quotes the decoded file", "-", bad == 0, fmt.Sprintf("%d functions scanned", n))
 }
